@@ -10,7 +10,7 @@
    - adjacent micro-steps are the atomic ops XShutdown / ForceClose / ForceCloseDelay. *)
 From Coq Require Import List ZArith Lia Bool Arith NArith.
 From Coq.Strings Require Import Byte.
-From Muduo Require Import Conn_Model Conn_Proofs.
+From Muduo Require Import Conn_Model Conn_Proofs Conn_Trace.
 Import ListNotations.
 
 Arguments Nat.min : simpl never.
@@ -81,15 +81,18 @@ Qed.
 
 (* so, on a state whose base component satisfies the invariant, a Base op of the x-machine is the
    op of the base machine *)
-Theorem xstep_base c reqs o : Inv c ->
-  xstep (mkX c reqs) (Base o) =
+Theorem xstep_base c reqs tm o : Inv c ->
+  xstep (mkX c reqs tm) (Base o) =
+  if (match o with RunOne _ => timer_due tm | _ => false end) then Rejected else
   match step c o with
-  | Ok (c', e) => Ok (mkX c' reqs, e)
+  | Ok (c', e) => Ok (mkX c' reqs (xtimers_after c o tm), e)
   | Rejected => Rejected
   | Fault => Fault
   end.
 Proof.
-  intros HI. cbn [xstep xbase xreqs]. destruct (step c o) as [[c' e]| |] eqn:E; try reflexivity.
+  intros HI. cbn [xstep xbase xreqs xtimers].
+  destruct (match o with RunOne _ => timer_due tm | _ => false end); [reflexivity|].
+  destruct (step c o) as [[c' e]| |] eqn:E; try reflexivity.
   rewrite (rereg_id c o c' e HI E). reflexivity.
 Qed.
 
@@ -147,22 +150,69 @@ Proof.
   constructor; rewrite ?Ho, ?Hib, ?Hw, ?Hp, ?Ha, ?Hc, ?Hd, ?He, ?Hr; assumption.
 Qed.
 
+(* inversion of the steps of the x-machine *)
+Lemma xstep_Base_inv x b x' e : xstep x (Base b) = Ok (x', e) ->
+  exists c', step (xbase x) b = Ok (c', e) /\
+    x' = mkX (rereg (xbase x) c') (xreqs x) (xtimers_after (xbase x) b (xtimers x)).
+Proof.
+  cbn [xstep]. destruct (match b with RunOne _ => timer_due (xtimers x) | _ => false end); [discriminate|].
+  destruct (step (xbase x) b) as [[c' e']| |]; try discriminate.
+  intros H. injection H as <- <-. eauto.
+Qed.
+
+Lemma xstep_XCheck_inv x t r x' e : xstep x (XCheck t r) = Ok (x', e) ->
+  st (xbase x) <> Connecting /\ find_req t (xreqs x) = None /\ e = [] /\
+  x' = mkX (xbase x) (mkReq t r (creq_test r (st (xbase x))) false :: xreqs x) (xtimers x).
+Proof.
+  cbn [xstep]. destruct (cstate_eqb (st (xbase x)) Connecting) eqn:Ec; [discriminate|].
+  destruct (find_req t (xreqs x)); [discriminate|]. intros H. injection H as <- <-.
+  apply cstate_eqb_false in Ec. auto.
+Qed.
+
+Lemma xstep_XSet_inv x t x' e : xstep x (XSet t) = Ok (x', e) ->
+  exists q, find_req t (xreqs x) = Some q /\ rq_stored q = false /\ e = [] /\
+    x' = mkX (if rq_passed q then set_st (xbase x) Disconnecting else xbase x)
+             (mkReq t (rq_kind q) (rq_passed q) true :: drop_req t (xreqs x)) (xtimers x).
+Proof.
+  cbn [xstep]. destruct (find_req t (xreqs x)) as [q|]; [|discriminate].
+  destruct (rq_stored q) eqn:Es; [discriminate|]. intros H. injection H as <- <-. eauto.
+Qed.
+
+Lemma xstep_XEnq_inv x t x' e : xstep x (XEnq t) = Ok (x', e) ->
+  exists q, find_req t (xreqs x) = Some q /\ rq_stored q = true /\ e = [] /\
+    x' = mkX (if rq_passed q && negb (is_delay (rq_kind q)) then creq_enqueue (rq_kind q) (xbase x) else xbase x)
+             (drop_req t (xreqs x))
+             (if rq_passed q && is_delay (rq_kind q) then xtimers x ++ [length (pending (xbase x))] else xtimers x).
+Proof.
+  cbn [xstep]. destruct (find_req t (xreqs x)) as [q|]; [|discriminate].
+  destruct (rq_stored q) eqn:Es; [|discriminate]. intros H. injection H as <- <-. eauto.
+Qed.
+
+Lemma xstep_XRunTimer_inv x x' e : xstep x XRunTimer = Ok (x', e) ->
+  exists r, xtimers x = 0 :: r /\ e = [] /\ x' = mkX (creq_enqueue RForceCloseDelay (xbase x)) (xreqs x) r.
+Proof.
+  cbn [xstep]. destruct (xtimers x) as [|[|n] r]; try discriminate. intros H. injection H as <- <-. eauto.
+Qed.
+
+Lemma creq_enqueue_invS r c : InvS c -> InvS (creq_enqueue r c).
+Proof.
+  intros [Hs Hi Hf]. destruct r; constructor;
+    cbn [creq_enqueue set_pending wire outb accepted consumed inb delivered ran pending enq]; try assumption.
+  - rewrite sends_of_one by discriminate. exact Hf.
+  - rewrite sends_of_one by discriminate. exact Hf.
+Qed.
+
 Lemma xstep_invS x o x' e : InvS (xbase x) -> xstep x o = Ok (x', e) -> InvS (xbase x').
 Proof.
-  intros HS H. destruct o as [b|t r|t|t]; cbn [xstep] in H.
-  - destruct (step (xbase x) b) as [[c' e']| |] eqn:E; try discriminate. injection H as <- _. cbn [xbase].
+  intros HS H. destruct o as [b|t r|t|t|].
+  - apply xstep_Base_inv in H as (c' & E & ->). cbn [xbase].
     apply rereg_invS. eapply step_invS; eassumption.
-  - destruct (cstate_eqb (st (xbase x)) Connecting); [discriminate|].
-    destruct (find_req t (xreqs x)); [discriminate|]. injection H as <- _. exact HS.
-  - destruct (find_req t (xreqs x)) as [q|]; [|discriminate]. destruct (rq_stored q); [discriminate|].
-    injection H as <- _. cbn [xbase]. destruct (rq_passed q); [|exact HS].
+  - apply xstep_XCheck_inv in H as (_ & _ & _ & ->). exact HS.
+  - apply xstep_XSet_inv in H as (q & _ & _ & _ & ->). cbn [xbase]. destruct (rq_passed q); [|exact HS].
     destruct HS as [Hs Hi Hf]. constructor; cbn [set_st wire outb accepted consumed inb delivered ran pending enq]; assumption.
-  - destruct (find_req t (xreqs x)) as [q|]; [|discriminate]. destruct (rq_stored q); [|discriminate].
-    injection H as <- _. cbn [xbase]. destruct (rq_passed q); [|exact HS].
-    destruct HS as [Hs Hi Hf]. destruct (rq_kind q); constructor;
-      cbn [creq_enqueue set_pending wire outb accepted consumed inb delivered ran pending enq]; try assumption.
-    + rewrite sends_of_one by discriminate. exact Hf.
-    + rewrite sends_of_one by discriminate. exact Hf.
+  - apply xstep_XEnq_inv in H as (q & _ & _ & _ & ->). cbn [xbase].
+    destruct (rq_passed q && negb (is_delay (rq_kind q))); [apply creq_enqueue_invS|]; exact HS.
+  - apply xstep_XRunTimer_inv in H as (r & _ & _ & ->). cbn [xbase]. apply creq_enqueue_invS, HS.
 Qed.
 
 (* C01's stream equations hold after EVERY history of the x-machine, racy or not: what the peer
@@ -241,19 +291,20 @@ Proof.
   - apply (set_aux_inv c (chk c) (S (delayed c)) HI).
 Qed.
 
+Lemma creq_enqueue_st r c : st (creq_enqueue r c) = st c.
+Proof. destruct r; reflexivity. Qed.
+
 Lemma xstep_xinv x o x' e : XInv x -> set_ok x o -> xstep x o = Ok (x', e) -> XInv x'.
 Proof.
-  intros [HI Hst] Hok H. destruct o as [b|t r|t|t]; cbn [xstep] in H.
-  - destruct (step (xbase x) b) as [[c' e']| |] eqn:E; try discriminate. injection H as <- _.
+  intros [HI Hst] Hok H. destruct o as [b|t r|t|t|].
+  - apply xstep_Base_inv in H as (c' & E & ->).
     rewrite (rereg_id _ _ _ _ HI E). constructor; unfold stored_ok; cbn [xbase xreqs].
     + eapply step_inv; eassumption.
     + intros q Hq Hp Hs. eapply step_closed_stays; [exact E|]. eapply Hst; eassumption.
-  - destruct (cstate_eqb (st (xbase x)) Connecting); [discriminate|].
-    destruct (find_req t (xreqs x)); [discriminate|]. injection H as <- _. constructor; unfold stored_ok; cbn [xbase xreqs].
+  - apply xstep_XCheck_inv in H as (_ & _ & _ & ->). constructor; unfold stored_ok; cbn [xbase xreqs].
     + exact HI.
     + intros q [<-|Hq] Hp Hs; [discriminate Hs|]. eapply Hst; eassumption.
-  - destruct (find_req t (xreqs x)) as [q|] eqn:Ef; [|discriminate].
-    destruct (rq_stored q) eqn:Es; [discriminate|]. injection H as <- _.
+  - apply xstep_XSet_inv in H as (q & Ef & Es & _ & ->).
     cbn [set_ok] in Hok. rewrite Ef in Hok.
     destruct (rq_passed q) eqn:Ep.
     + specialize (Hok eq_refl Es). apply creq_test_up in Hok.
@@ -262,42 +313,45 @@ Proof.
       * intros q' _ _ _. left. reflexivity.
     + constructor; unfold stored_ok; cbn [xbase xreqs]; [exact HI|].
       intros q' [<-|Hq] Hp Hs; [discriminate Hp|]. apply drop_req_in in Hq. eapply Hst; eassumption.
-  - destruct (find_req t (xreqs x)) as [q|] eqn:Ef; [|discriminate].
-    destruct (rq_stored q) eqn:Es; [|discriminate]. injection H as <- _.
+  - apply xstep_XEnq_inv in H as (q & Ef & Es & _ & ->).
     destruct (find_req_in _ _ _ Ef) as [Hin _].
-    destruct (rq_passed q) eqn:Ep.
-    + pose proof (Hst q Hin Ep Es) as Hs.
-      constructor; unfold stored_ok; cbn [xbase xreqs].
-      * apply creq_enqueue_inv; assumption.
-      * intros q' Hq Hp' Hs'. apply drop_req_in in Hq.
-        replace (st (creq_enqueue (rq_kind q) (xbase x))) with (st (xbase x)) by (destruct (rq_kind q); reflexivity).
-        eapply Hst; eassumption.
-    + constructor; unfold stored_ok; cbn [xbase xreqs]; [exact HI|].
-      intros q' Hq Hp' Hs'. apply drop_req_in in Hq. eapply Hst; eassumption.
+    constructor; unfold stored_ok; cbn [xbase xreqs].
+    + destruct (rq_passed q) eqn:Ep; cbn [andb]; [|exact HI].
+      destruct (negb (is_delay (rq_kind q))); [|exact HI].
+      apply creq_enqueue_inv; [exact HI|]. exact (Hst q Hin Ep Es).
+    + intros q' Hq Hp' Hs'. apply drop_req_in in Hq.
+      replace (st (if rq_passed q && negb (is_delay (rq_kind q)) then creq_enqueue (rq_kind q) (xbase x) else xbase x))
+        with (st (xbase x)) by (destruct (rq_passed q && negb (is_delay (rq_kind q))); [rewrite creq_enqueue_st|]; reflexivity).
+      eapply Hst; eassumption.
+  - apply xstep_XRunTimer_inv in H as (r & _ & _ & ->).
+    constructor; unfold stored_ok; cbn [xbase xreqs].
+    + apply (set_aux_inv (xbase x) (chk (xbase x)) (S (delayed (xbase x))) HI).
+    + intros q Hq Hp Hs. rewrite creq_enqueue_st. eapply Hst; eassumption.
 Qed.
 
 Lemma xstep_no_fault x o : XInv x -> xstep x o <> Fault.
 Proof.
-  intros [HI _] H. destruct o as [b|t r|t|t]; cbn [xstep] in H.
-  - destruct (step (xbase x) b) as [[c' e']| |] eqn:E; try discriminate. eapply no_fault; eassumption.
+  intros [HI _] H. destruct o as [b|t r|t|t|]; cbn [xstep] in H.
+  - destruct (match b with RunOne _ => timer_due (xtimers x) | _ => false end); [discriminate|].
+    destruct (step (xbase x) b) as [[c' e']| |] eqn:E; try discriminate. eapply no_fault; eassumption.
   - destruct (cstate_eqb (st (xbase x)) Connecting); [discriminate|]. destruct (find_req t (xreqs x)); discriminate.
   - destruct (find_req t (xreqs x)) as [q|]; [|discriminate]. destruct (rq_stored q); discriminate.
   - destruct (find_req t (xreqs x)) as [q|]; [|discriminate]. destruct (rq_stored q); discriminate.
+  - destruct (xtimers x) as [|[|n] r]; discriminate.
 Qed.
 
 Lemma xstep_updown x o x' e : xstep x o = Ok (x', e) ->
   ups (xbase x') = ups (xbase x) + count is_up e /\ downs (xbase x') = downs (xbase x) + count is_down e.
 Proof.
-  intros H. destruct o as [b|t r|t|t]; cbn [xstep] in H.
-  - destruct (step (xbase x) b) as [[c' e']| |] eqn:E; try discriminate. injection H as <- <-. cbn [xbase].
+  intros H. destruct o as [b|t r|t|t|].
+  - apply xstep_Base_inv in H as (c' & E & ->). cbn [xbase].
     destruct (rereg_fields (xbase x) c') as (_ & _ & _ & _ & _ & _ & _ & _ & _ & _ & _ & _ & _ & _ & _ & _ & _ & _ & _ & -> & ->).
     eapply step_updown, E.
-  - destruct (cstate_eqb (st (xbase x)) Connecting); [discriminate|].
-    destruct (find_req t (xreqs x)); [discriminate|]. injection H as <- <-. cbn. lia.
-  - destruct (find_req t (xreqs x)) as [q|]; [|discriminate]. destruct (rq_stored q); [discriminate|].
-    injection H as <- <-. cbn [xbase]. destruct (rq_passed q); cbn; lia.
-  - destruct (find_req t (xreqs x)) as [q|]; [|discriminate]. destruct (rq_stored q); [|discriminate].
-    injection H as <- <-. cbn [xbase]. destruct (rq_passed q); [destruct (rq_kind q)|]; cbn; lia.
+  - apply xstep_XCheck_inv in H as (_ & _ & -> & ->). cbn. lia.
+  - apply xstep_XSet_inv in H as (q & _ & _ & -> & ->). cbn [xbase]. destruct (rq_passed q); cbn; lia.
+  - apply xstep_XEnq_inv in H as (q & _ & _ & -> & ->). cbn [xbase].
+    destruct (rq_passed q && negb (is_delay (rq_kind q))); [destruct (rq_kind q)|]; cbn; lia.
+  - apply xstep_XRunTimer_inv in H as (r & _ & -> & ->). cbn. lia.
 Qed.
 
 Lemma xrun_updown ops : forall x x' e, xrun x ops = Ok (x', e) ->
@@ -359,10 +413,10 @@ Proof.
   destruct (registered c && negb (registered c)); reflexivity.
 Qed.
 
-Lemma xstep_check c reqs t r : st c <> Connecting -> find_req t reqs = None ->
-  xstep (mkX c reqs) (XCheck t r) = Ok (mkX c (mkReq t r (creq_test r (st c)) false :: reqs), []).
+Lemma xstep_check c reqs tm t r : st c <> Connecting -> find_req t reqs = None ->
+  xstep (mkX c reqs tm) (XCheck t r) = Ok (mkX c (mkReq t r (creq_test r (st c)) false :: reqs) tm, []).
 Proof.
-  intros Hc Hf. cbn [xstep xbase xreqs]. apply cstate_eqb_false in Hc. rewrite Hc, Hf. reflexivity.
+  intros Hc Hf. cbn [xstep xbase xreqs xtimers]. apply cstate_eqb_false in Hc. rewrite Hc, Hf. reflexivity.
 Qed.
 
 Lemma drop_req_head t r p b reqs : find_req t reqs = None -> drop_req t (mkReq t r p b :: reqs) = reqs.
@@ -371,45 +425,71 @@ Proof.
   apply (drop_req_fresh t reqs Hf).
 Qed.
 
-Lemma xstep_set c reqs t r p : find_req t reqs = None ->
-  xstep (mkX c (mkReq t r p false :: reqs)) (XSet t) =
-  Ok (mkX (if p then set_st c Disconnecting else c) (mkReq t r p true :: reqs), []).
+Lemma xstep_set c reqs tm t r p : find_req t reqs = None ->
+  xstep (mkX c (mkReq t r p false :: reqs) tm) (XSet t) =
+  Ok (mkX (if p then set_st c Disconnecting else c) (mkReq t r p true :: reqs) tm, []).
 Proof.
-  intros Hf. cbn [xstep xbase xreqs find_req rq_thread]. rewrite Nat.eqb_refl.
+  intros Hf. cbn [xstep xbase xreqs xtimers find_req rq_thread]. rewrite Nat.eqb_refl.
   cbn [rq_stored rq_passed rq_kind]. rewrite (drop_req_head t r p false reqs Hf). reflexivity.
 Qed.
 
-Lemma xstep_enq c reqs t r p : find_req t reqs = None ->
-  xstep (mkX c (mkReq t r p true :: reqs)) (XEnq t) =
-  Ok (mkX (if p then creq_enqueue r c else c) reqs, []).
+Lemma xstep_enq c reqs tm t r p : find_req t reqs = None ->
+  xstep (mkX c (mkReq t r p true :: reqs) tm) (XEnq t) =
+  Ok (mkX (if p && negb (is_delay r) then creq_enqueue r c else c) reqs
+          (if p && is_delay r then tm ++ [length (pending c)] else tm), []).
 Proof.
-  intros Hf. cbn [xstep xbase xreqs find_req rq_thread]. rewrite Nat.eqb_refl.
+  intros Hf. cbn [xstep xbase xreqs xtimers find_req rq_thread]. rewrite Nat.eqb_refl.
   cbn [rq_stored rq_passed rq_kind]. rewrite (drop_req_head t r p true reqs Hf). reflexivity.
 Qed.
 
-Lemma adjacent_run c reqs t r : st c <> Connecting -> find_req t reqs = None ->
-  xrun (mkX c reqs) [XCheck t r; XSet t; XEnq t] =
-  Ok (mkX (if creq_test r (st c) then creq_enqueue r (set_st c Disconnecting) else c) reqs, []).
+Lemma adjacent_run c reqs tm t r : st c <> Connecting -> find_req t reqs = None ->
+  xrun (mkX c reqs tm) [XCheck t r; XSet t; XEnq t] =
+  Ok (mkX (if creq_test r (st c) then (if is_delay r then set_st c Disconnecting else creq_enqueue r (set_st c Disconnecting)) else c)
+          reqs
+          (if creq_test r (st c) && is_delay r then tm ++ [length (pending c)] else tm), []).
 Proof.
-  intros Hc Hf. cbn [xrun]. rewrite (xstep_check c reqs t r Hc Hf), (xstep_set c reqs t r _ Hf).
-  rewrite (xstep_enq _ reqs t r _ Hf). destruct (creq_test r (st c)); reflexivity.
+  intros Hc Hf. cbn [xrun]. rewrite (xstep_check c reqs tm t r Hc Hf), (xstep_set c reqs tm t r _ Hf).
+  rewrite (xstep_enq _ reqs tm t r _ Hf). destruct (creq_test r (st c)); destruct r; reflexivity.
 Qed.
 
-Theorem adjacent_is_atomic : forall c reqs t, st c <> Connecting -> find_req t reqs = None ->
-  xrun (mkX c reqs) [XCheck t RShutdown; XSet t; XEnq t] = xstep (mkX c reqs) (Base XShutdown) /\
-  xrun (mkX c reqs) [XCheck t RForceClose; XSet t; XEnq t] = xstep (mkX c reqs) (Base ForceClose) /\
-  xrun (mkX c reqs) [XCheck t RForceCloseDelay; XSet t; XEnq t] = xstep (mkX c reqs) (Base ForceCloseDelay).
+(* a foreign shutdown() / forceClose() whose load, store and hand-off are adjacent IS the atomic op;
+   a foreign forceCloseWithDelay() additionally needs the loop to run the queued addTimerInLoop
+   (here: at once, nothing else being queued) *)
+Theorem adjacent_is_atomic : forall c reqs tm t, st c <> Connecting -> find_req t reqs = None ->
+  xrun (mkX c reqs tm) [XCheck t RShutdown; XSet t; XEnq t] = xstep (mkX c reqs tm) (Base XShutdown) /\
+  xrun (mkX c reqs tm) [XCheck t RForceClose; XSet t; XEnq t] = xstep (mkX c reqs tm) (Base ForceClose) /\
+  (pending c = [] -> tm = [] ->
+   xrun (mkX c reqs tm) [XCheck t RForceCloseDelay; XSet t; XEnq t; XRunTimer] = xstep (mkX c reqs tm) (Base ForceCloseDelay) \/
+   (creq_test RForceCloseDelay (st c) = false /\
+    xrun (mkX c reqs tm) [XCheck t RForceCloseDelay; XSet t; XEnq t] = xstep (mkX c reqs tm) (Base ForceCloseDelay))).
 Proof.
-  intros c reqs t Hc Hf. rewrite !(adjacent_run c reqs t _ Hc Hf).
+  intros c reqs tm t Hc Hf.
   assert (Ec : cstate_eqb (st c) Connecting = false) by (apply cstate_eqb_false, Hc).
-  cbn [xstep xbase xreqs]. unfold step. cbn [user_op andb]. rewrite Ec.
-  unfold forceClose, closable, ok. cbn [creq_test creq_enqueue].
-  repeat split.
-  - destruct (cstate_eqb (st c) Connected); rewrite rereg_same_interest by reflexivity; reflexivity.
-  - destruct (cstate_eqb (st c) Connected || cstate_eqb (st c) Disconnecting);
+  split; [|split].
+  - rewrite (adjacent_run c reqs tm t _ Hc Hf).
+    cbn [xstep xbase xreqs xtimers xtimers_after]. unfold step. cbn [user_op andb]. rewrite Ec.
+    unfold ok. cbn [creq_test creq_enqueue is_delay andb].
+    destruct (cstate_eqb (st c) Connected); cbn [andb]; rewrite rereg_same_interest by reflexivity; reflexivity.
+  - rewrite (adjacent_run c reqs tm t _ Hc Hf).
+    cbn [xstep xbase xreqs xtimers xtimers_after]. unfold step. cbn [user_op andb]. rewrite Ec.
+    unfold forceClose, closable, ok. cbn [creq_test creq_enqueue is_delay andb].
+    destruct (cstate_eqb (st c) Connected || cstate_eqb (st c) Disconnecting); cbn [andb];
       rewrite rereg_same_interest by reflexivity; reflexivity.
-  - destruct (cstate_eqb (st c) Connected || cstate_eqb (st c) Disconnecting);
-      rewrite rereg_same_interest by reflexivity; reflexivity.
+  - intros Hp ->.
+    assert (Hb : xstep (mkX c reqs []) (Base ForceCloseDelay) =
+                 Ok (mkX (if creq_test RForceCloseDelay (st c) then creq_enqueue RForceCloseDelay (set_st c Disconnecting) else c) reqs [], [])).
+    { cbn [xstep xbase xreqs xtimers xtimers_after]. unfold step. cbn [user_op andb]. rewrite Ec.
+      unfold closable, ok. cbn [creq_test creq_enqueue].
+      destruct (cstate_eqb (st c) Connected || cstate_eqb (st c) Disconnecting);
+        rewrite rereg_same_interest by reflexivity; reflexivity. }
+    destruct (creq_test RForceCloseDelay (st c)) eqn:Et.
+    + left. change [XCheck t RForceCloseDelay; XSet t; XEnq t; XRunTimer]
+        with ([XCheck t RForceCloseDelay; XSet t; XEnq t] ++ [XRunTimer]).
+      rewrite Hb. cbn [app xrun].
+      rewrite (xstep_check c reqs [] t _ Hc Hf), (xstep_set c reqs [] t _ _ Hf), (xstep_enq _ reqs [] t _ _ Hf).
+      rewrite Et. cbn [is_delay andb negb app set_st pending]. rewrite Hp. cbn [length xstep xtimers xbase xreqs app].
+      reflexivity.
+    + right. split; [reflexivity|]. rewrite Hb, (adjacent_run c reqs [] t _ Hc Hf), Et. reflexivity.
 Qed.
 
 (* ---- the race: witnesses -------------------------------------------------------------------- *)
@@ -417,7 +497,7 @@ Qed.
    the loop thread (DOWN, connectDestroyed queued), the foreign store then overwrites kDisconnected
    with kDisconnecting: connectDestroyed sees an "up" connection and reports DOWN a second time *)
 Definition race_ops (r : creq) : list xop :=
-  [Base Establish; XCheck 1 r; Base EvReadEOF; XSet 1; XEnq 1; Base (RunOne AcceptAll); Base (RunOne AcceptAll)].
+  [Base Establish; XCheck 1 r; Base EvReadEOF; XSet 1; XEnq 1; Base (RunOne AcceptAll)].
 
 Lemma race_witness : forall r,
   exists x e, xrun (xinit 1024%N true true) (race_ops r) = Ok (x, e) /\
@@ -486,15 +566,17 @@ Lemma race_free_unfold : forall x ops,
 Proof. intros x [|o r]; reflexivity. Qed.
 
 Lemma race_ops_unfold : forall r,
-  race_ops r = [Base Establish; XCheck 1 r; Base EvReadEOF; XSet 1; XEnq 1; Base (RunOne AcceptAll); Base (RunOne AcceptAll)].
+  race_ops r = [Base Establish; XCheck 1 r; Base EvReadEOF; XSet 1; XEnq 1; Base (RunOne AcceptAll)].
 Proof. reflexivity. Qed.
 
 Lemma xstep_unfold : forall x o,
   xstep x o =
   match o with
   | Base b =>
+      if (match b with RunOne _ => timer_due (xtimers x) | _ => false end) then Rejected
+      else
       match step (xbase x) b with
-      | Ok (c', e) => Ok (mkX (rereg (xbase x) c') (xreqs x), e)
+      | Ok (c', e) => Ok (mkX (rereg (xbase x) c') (xreqs x) (xtimers_after (xbase x) b (xtimers x)), e)
       | Rejected => Rejected
       | Fault => Fault
       end
@@ -502,27 +584,41 @@ Lemma xstep_unfold : forall x o,
       if cstate_eqb (st (xbase x)) Connecting then Rejected
       else match find_req t (xreqs x) with
            | Some _ => Rejected
-           | None => Ok (mkX (xbase x) (mkReq t r (creq_test r (st (xbase x))) false :: xreqs x), [])
+           | None => Ok (mkX (xbase x) (mkReq t r (creq_test r (st (xbase x))) false :: xreqs x) (xtimers x), [])
            end
   | XSet t =>
       match find_req t (xreqs x) with
       | Some q =>
           if rq_stored q then Rejected
           else Ok (mkX (if rq_passed q then set_st (xbase x) Disconnecting else xbase x)
-                       (mkReq t (rq_kind q) (rq_passed q) true :: drop_req t (xreqs x)), [])
+                       (mkReq t (rq_kind q) (rq_passed q) true :: drop_req t (xreqs x)) (xtimers x), [])
       | None => Rejected
       end
   | XEnq t =>
       match find_req t (xreqs x) with
       | Some q =>
           if rq_stored q
-          then Ok (mkX (if rq_passed q then creq_enqueue (rq_kind q) (xbase x) else xbase x)
-                       (drop_req t (xreqs x)), [])
+          then Ok (mkX (if rq_passed q && negb (is_delay (rq_kind q)) then creq_enqueue (rq_kind q) (xbase x) else xbase x)
+                       (drop_req t (xreqs x))
+                       (if rq_passed q && is_delay (rq_kind q) then xtimers x ++ [length (pending (xbase x))] else xtimers x), [])
           else Rejected
       | None => Rejected
       end
+  | XRunTimer =>
+      match xtimers x with
+      | 0 :: r => Ok (mkX (creq_enqueue RForceCloseDelay (xbase x)) (xreqs x) r, [])
+      | _ => Rejected
+      end
   end.
-Proof. intros x [b|t r|t|t]; reflexivity. Qed.
+Proof. intros x [b|t r|t|t|]; reflexivity. Qed.
+
+Lemma xtimers_unfold : forall c o l,
+  xtimers_after c o l = (match o with
+                         | RunOne _ => match pending c with [] => l | _ :: _ => map pred l end
+                         | _ => l
+                         end) /\
+  timer_due l = (match l with 0 :: _ => true | _ => false end).
+Proof. split; reflexivity. Qed.
 
 Lemma race_ops2_unfold :
   race_ops2 = [Base Establish; XCheck 1 RForceClose; Base EvReadEOF; Base (RunOne AcceptAll); XSet 1; XEnq 1;
@@ -550,8 +646,121 @@ Theorem xstep_base_fields : forall x o x' e, xstep x (Base o) = Ok (x', e) ->
     has_wc (xbase x') = has_wc c' /\ has_hwm (xbase x') = has_hwm c' /\ wire (xbase x') = wire c' /\
     fin (xbase x') = fin c' /\ pending (xbase x') = pending c' /\ downs (xbase x') = downs c'.
 Proof.
-  intros x o x' e H. cbn [xstep] in H. destruct (step (xbase x) o) as [[c' e']| |] eqn:E; try discriminate.
-  injection H as <- <-. exists c'. split; [reflexivity|]. cbn [xbase xreqs]. split; [reflexivity|].
+  intros x o x' e H. apply xstep_Base_inv in H as (c' & E & ->).
+  exists c'. split; [exact E|]. cbn [xbase xreqs]. split; [reflexivity|].
   destruct (rereg_fields (xbase x) c') as (H1 & H2 & H3 & H4 & H5 & _ & H7 & H8 & H9 & H10 & H11 & H12 & _ & _ & _ & _ & _ & _ & _ & _ & H21).
   auto 15.
+Qed.
+
+(* ---- the whole-history theorems of C01 / C13 / C03 over the x-machine ------------------------ *)
+(* the Base steps of a history of the x-machine, as (state before, op, state after) *)
+Fixpoint xtrace (x : xconn) (ops : list xop) : list (conn * op * conn) :=
+  match ops with
+  | [] => []
+  | o :: r =>
+      match xstep x o with
+      | Ok (x1, _) => (match o with Base b => [(xbase x, b, xbase x1)] | _ => [] end) ++ xtrace x1 r
+      | _ => []
+      end
+  end.
+
+Lemma xtrace_cons x o ops x1 e1 : xstep x o = Ok (x1, e1) ->
+  xtrace x (o :: ops) = (match o with Base b => [(xbase x, b, xbase x1)] | _ => [] end) ++ xtrace x1 ops.
+Proof. intros H. cbn [xtrace]. rewrite H. reflexivity. Qed.
+
+Lemma xtrace_unfold : forall x ops,
+  xtrace x ops =
+  match ops with
+  | [] => []
+  | o :: r =>
+      match xstep x o with
+      | Ok (x1, _) => (match o with Base b => [(xbase x, b, xbase x1)] | _ => [] end) ++ xtrace x1 r
+      | _ => []
+      end
+  end.
+Proof. intros x [|o r]; reflexivity. Qed.
+
+(* an X step changes neither the streams, nor the callback functors of the queue, and emits no event *)
+Lemma xstep_nonbase x o x' e : xstep x o = Ok (x', e) -> (forall b, o <> Base b) ->
+  e = [] /\ accepted (xbase x') = accepted (xbase x) /\ cbs (pending (xbase x')) = cbs (pending (xbase x)).
+Proof.
+  intros H Hn. destruct o as [b|t r|t|t|]; [exfalso; eapply Hn; reflexivity| | | |].
+  - apply xstep_XCheck_inv in H as (_ & _ & -> & ->). auto.
+  - apply xstep_XSet_inv in H as (q & _ & _ & -> & ->). cbn [xbase]. destruct (rq_passed q); auto.
+  - apply xstep_XEnq_inv in H as (q & _ & _ & -> & ->). cbn [xbase].
+    destruct (rq_passed q && negb (is_delay (rq_kind q))); [|auto].
+    destruct (rq_kind q); cbn [creq_enqueue set_pending accepted pending]; rewrite ?cbs_app; cbn; rewrite ?app_nil_r; auto.
+  - apply xstep_XRunTimer_inv in H as (r & _ & -> & ->). cbn. auto.
+Qed.
+
+Lemma xrun_blocks ops : forall x x' e, xrun x ops = Ok (x', e) ->
+  accepted (xbase x') = accepted (xbase x) ++ flat_map step_block (xtrace x ops).
+Proof.
+  induction ops as [|o ops IH]; intros x x' e H.
+  - cbn in H. injection H as <- _. cbn. symmetry. apply app_nil_r.
+  - apply xrun_cons in H as (x1 & e1 & e2 & H1 & H2 & _).
+    rewrite (xtrace_cons x o ops x1 e1 H1), flat_map_app, (IH x1 x' e2 H2).
+    destruct o as [b|t r|t|t|].
+    + apply xstep_Base_inv in H1 as (c' & Hs & ->). cbn [xbase flat_map].
+      destruct (rereg_fields (xbase x) c') as (_ & _ & _ & _ & _ & _ & _ & _ & _ & _ & _ & _ & _ & _ & -> & _).
+      rewrite (step_accepted _ _ _ _ Hs). unfold step_block, pre, opx. cbn [fst snd].
+      rewrite app_nil_r, <- app_assoc. reflexivity.
+    + destruct (xstep_nonbase x _ x1 e1 H1) as (_ & -> & _); [discriminate|]. reflexivity.
+    + destruct (xstep_nonbase x _ x1 e1 H1) as (_ & -> & _); [discriminate|]. reflexivity.
+    + destruct (xstep_nonbase x _ x1 e1 H1) as (_ & -> & _); [discriminate|]. reflexivity.
+    + destruct (xstep_nonbase x _ x1 e1 H1) as (_ & -> & _); [discriminate|]. reflexivity.
+Qed.
+
+(* C01 headline over the x-machine, for EVERY history (racy or not): wire ++ backlog = the blocks of
+   the sendInLoops of the history, in order *)
+Theorem xoutbound_trace : forall mark wc hw ops x e,
+  xrun (xinit mark wc hw) ops = Ok (x, e) ->
+  wire (xbase x) ++ outb (xbase x) = flat_map step_block (xtrace (xinit mark wc hw) ops).
+Proof.
+  intros mark wc hw ops x e H.
+  destruct (xrun_streams_init mark wc hw ops x e H) as (-> & _).
+  apply (xrun_blocks ops _ _ _ H).
+Qed.
+
+Lemma cb_due_post_outb c o c1 c2 : outb c2 = outb c1 -> cb_due (c, o, c2) = cb_due (c, o, c1).
+Proof.
+  intros Ho. unfold cb_due, wc_due, hw_due, pre, opx, post. cbn [fst snd]. rewrite Ho. reflexivity.
+Qed.
+
+Lemma xrun_callbacks ops : forall x x' e, xrun x ops = Ok (x', e) ->
+  cb_events e ++ cbs (pending (xbase x')) = cbs (pending (xbase x)) ++ flat_map cb_due (xtrace x ops).
+Proof.
+  induction ops as [|o ops IH]; intros x x' e H.
+  - cbn in H. injection H as <- <-. cbn. rewrite app_nil_r. reflexivity.
+  - apply xrun_cons in H as (x1 & e1 & e2 & H1 & H2 & ->).
+    rewrite (xtrace_cons x o ops x1 e1 H1), flat_map_app, cb_events_app, <- app_assoc, (IH x1 x' e2 H2), !app_assoc.
+    f_equal. destruct o as [b|t r|t|t|].
+    + destruct (xstep_base_fields x b x1 e1 H1) as (c' & Hs & _ & _ & Ho & _ & _ & _ & _ & _ & _ & _ & _ & Hp & _).
+      cbn [flat_map]. rewrite app_nil_r, Hp, (cb_due_post_outb _ _ c' _ Ho). apply step_callbacks, Hs.
+    + destruct (xstep_nonbase x _ x1 e1 H1) as (-> & _ & ->); [discriminate|]. cbn. rewrite app_nil_r. reflexivity.
+    + destruct (xstep_nonbase x _ x1 e1 H1) as (-> & _ & ->); [discriminate|]. cbn. rewrite app_nil_r. reflexivity.
+    + destruct (xstep_nonbase x _ x1 e1 H1) as (-> & _ & ->); [discriminate|]. cbn. rewrite app_nil_r. reflexivity.
+    + destruct (xstep_nonbase x _ x1 e1 H1) as (-> & _ & ->); [discriminate|]. cbn. rewrite app_nil_r. reflexivity.
+Qed.
+
+(* C13 headline over the x-machine, for EVERY history (racy or not) *)
+Theorem xcallbacks_trace : forall mark wc hw ops x e,
+  xrun (xinit mark wc hw) ops = Ok (x, e) ->
+  cb_events e ++ cbs (pending (xbase x)) = flat_map cb_due (xtrace (xinit mark wc hw) ops).
+Proof. intros mark wc hw ops x e H. apply (xrun_callbacks ops _ _ _ H). Qed.
+
+(* C03: in a race-free history, a connection that is up and half-closed has an empty backlog,
+   interest off, and everything any sendInLoop of the history took on the wire *)
+Theorem xfin_all_on_wire : forall mark wc hw ops x e,
+  race_free (xinit mark wc hw) ops -> xrun (xinit mark wc hw) ops = Ok (x, e) ->
+  fin (xbase x) = true -> st (xbase x) = Connected \/ st (xbase x) = Disconnecting ->
+  outb (xbase x) = [] /\ writing (xbase x) = false /\ st (xbase x) = Disconnecting /\
+  wire (xbase x) = flat_map step_block (xtrace (xinit mark wc hw) ops).
+Proof.
+  intros mark wc hw ops x e Hrf H Hf Hup.
+  destruct (xrun_race_free_once mark wc hw ops x e Hrf H) as [HI _].
+  destruct (i_fin _ HI Hf) as [Hnc Ho]. specialize (Ho Hup).
+  split; [exact Ho|]. split; [apply inv_up_writing_false; assumption|]. split.
+  - destruct Hup as [E|E]; [contradiction|exact E].
+  - rewrite <- (xoutbound_trace mark wc hw ops x e H), Ho, app_nil_r. reflexivity.
 Qed.
